@@ -1307,6 +1307,8 @@ func (w *world) predict(t *Task) {
 			w.cm = 0
 		}
 		w.held = w.cm
+	case "stale":
+		// a task of a namespace that is not watched (any more): sync ignores it but still does its bookkeeping
 	case "mgmtconfigmap":
 		if t.Act == "set" {
 			w.mgv = t.MV
@@ -1485,6 +1487,8 @@ func mutate(v *k8s.VerifC12, t Task) (string, error) {
 			return keyOf(t.Name), v.Remove("transportserver", ctlTS(t.Name, 0))
 		}
 		return keyOf(t.Name), nil
+	case "stale":
+		return fmt.Sprintf("team-b/stale-%d", t.SV), nil
 	case "secret":
 		key := nicNS + "/" + secretRoles[t.Name].name
 		if t.Act == "set" {
@@ -1584,7 +1588,7 @@ func runCtl(c *Case) {
 	v, err := k8s.VerifC12NewOpts(cnf, k8s.VerifC12Opts{Plus: c.Plus, DynWeights: c.DynW,
 		Listeners:           []conf_v1.Listener{{Name: "tcp-t", Port: 9000, Protocol: "TCP"}},
 		DefaultServerSecret: nicNS + "/" + secretRoles["default"].name, WildcardTLSSecret: nicNS + "/" + secretRoles["wildcard"].name,
-		ExternalServiceName: nicSvc})
+		ExternalServiceName: nicSvc, Namespaces: []string{ns, nicNS}})
 	if err != nil {
 		c.Obs = map[string]string{"error": err.Error()}
 		return
@@ -1623,7 +1627,11 @@ func runCtl(c *Case) {
 				o.Error = err.Error()
 				return o
 			}
-			evs, err := v.Sync(t.Kind, key, t.QLen)
+			kind := t.Kind
+			if kind == "stale" {
+				kind = t.Name // the kind of the stale task
+			}
+			evs, err := v.Sync(kind, key, t.QLen)
 			if err != nil {
 				o.Error = err.Error()
 			}
@@ -1668,6 +1676,9 @@ func genTask(r *vh.Rng, w *world) Task {
 		if r.Chance(1, 6) {
 			t.Act = "touch"
 		}
+	case x >= 19 && x < 25:
+		// left over from a namespace that is no longer watched
+		t = Task{Kind: "stale", Name: vh.Pick(r, []string{"ingress", "secret", "endpointslice", "virtualserver", "transportserver", "service"}), Act: "touch", SV: r.Intn(4)}
 	case x < 19 && w.plus:
 		t = Task{Kind: "mgmtconfigmap", Name: "nginx-config-mgmt", Act: "set", MV: r.Intn(3), EV: w.mgmt}
 		if r.Chance(1, 3) {
@@ -1912,6 +1923,16 @@ func corpusCtl() []Case {
 			eps("z-svc", "set", 1, 3), eps("z-svc", "set", 3, 2), nic(1, 1), eps("z-svc", "set", 2, 0)})
 	add("corpus-replicas", true, false, []int{2}, []int{},
 		[]Task{ing("s", "set", 0, 0), ing("a", "set", 0, 0), nic(2, 0), nic(3, 0)})
+	// tasks of a namespace that is not watched any more, at every position: last of the start-up queue, first / middle /
+	// last of a batch that changed files, alone
+	stale := func(kind string, q int) Task { return Task{Kind: "stale", Name: kind, Act: "touch", QLen: q} }
+	add("corpus-stale", false, false, []int{}, []int{},
+		[]Task{ing("a", "set", 0, 1), stale("secret", 0), stale("ingress", 0),
+			stale("endpointslice", 3), ing("a", "set", 1, 2), stale("virtualserver", 1), ing("b", "set", 0, 0),
+			ing("a", "delete", 0, 2), eps("b-svc", "set", 1, 1), stale("secret", 0),
+			eps("z-svc", "set", 1, 2), stale("endpointslice", 1), stale("endpointslice", 0), ing("b", "set", 1, 0)})
+	add("corpus-stale", true, false, []int{}, []int{},
+		[]Task{stale("endpointslice", 1), stale("endpointslice", 0), ing("a", "set", 0, 0), eps("a-svc", "set", 1, 2), stale("service", 0)})
 	// F15 at the controller: a VirtualServer with weight updates during start-up and in a batch
 	add("corpus-weights-batch", true, true, []int{}, []int{},
 		[]Task{{Kind: "virtualserver", Name: "w", Act: "set", SV: 0, QLen: 1}, ing("a", "set", 0, 0),
